@@ -8,10 +8,10 @@ use super::*;
 pub fn parse_schema<T: AsRef<str>>(input: T) -> Result<ServiceDocument> {
     let mut pc = PositionCalculator::new(input.as_ref());
     Ok(parse_service_document(
-        exactly_one(GraphQLParser::parse(
-            Rule::service_document,
-            input.as_ref(),
-        )?),
+        exactly_one(
+            GraphQLParser::parse(Rule::service_document, input.as_ref())
+                .map_err(|err| Error::from_pest(err, input.as_ref()))?,
+        ),
         &mut pc,
     )?)
 }
